@@ -89,7 +89,10 @@ fn file_defs_of(f: &File) -> FileDefs {
                 if let Some(t) = type_last_ident(&im.self_ty) {
                     for ii in im.items.iter() {
                         if let ImplItem::Type(a) = ii {
-                            let it = type_last_ident(&a.ty).filter(|_| matches!(strip_group(&a.ty), Type::Path(p) if p.qself.is_none() && p.path.segments.len() == 1 && matches!(p.path.segments[0].arguments, PathArguments::None)));
+                            let it = match strip_group(&a.ty) {
+                                Type::Path(p) if p.qself.is_none() && p.path.segments.len() <= 2 && p.path.segments.iter().all(|s| matches!(s.arguments, PathArguments::None)) => Some(p.path.segments.iter().map(|s| s.ident.to_string()).collect::<Vec<_>>().join("::")),
+                                _ => None,
+                            };
                             let key = (t.clone(), a.ident.to_string());
                             let v = match (d.assoc_types.get(&key), it) {
                                 (None, Some(i)) => Some(i),
@@ -317,6 +320,8 @@ fn find_fn<'s>(src: &'s Source, self_ty: Option<&str>, trait_spec: Option<&str>,
 struct FnJob {
     file: String,
     self_ty: Option<String>,
+    /// the self type as written in the impl header (differs from self_ty for an instantiated blanket impl)
+    find_self_ty: Option<String>,
     trait_spec: Option<String>,
     name: String,
     info_idx: usize,
@@ -971,7 +976,7 @@ impl Driver {
         Ok(())
     }
 
-    fn add_fn(&mut self, file: &str, spec: &str, coq_as: Option<String>, inst: Option<String>, module: usize) -> R<()> {
+    fn add_fn(&mut self, file: &str, spec: &str, coq_as: Option<String>, inst: Option<String>, needs: Option<String>, module: usize) -> R<()> {
         self.load(file)?;
         let parts = split_spec(spec);
         let (self_ty, trait_spec, name) = match parts.len() {
@@ -986,18 +991,42 @@ impl Driver {
         if let Some(g) = ff.impl_generics {
             gens.extend(Self::generics_of(g));
         }
+        // a blanket impl `impl<T: Bound> Trait for T` instantiated with `inst=T:Type`: the self type is that type
+        let find_self_ty = self_ty.clone();
+        let self_ty: Option<String> = match (&self_ty, &inst) {
+            (Some(stn), Some(inst)) => {
+                let mut out = self_ty.clone();
+                for part in inst.split(',') {
+                    if let Some((g, t)) = part.split_once(':') {
+                        if g == stn {
+                            let ty: Type = syn::parse_str(t).map_err(|e| format!("inst type `{}`: {}", t, e))?;
+                            if let Ty::Adt(k) = self.conv(&ty, &BTreeSet::new(), None, None)? {
+                                out = Some(k);
+                            }
+                        }
+                    }
+                }
+                out
+            }
+            _ => self_ty.clone(),
+        };
         let st = self_ty.as_deref();
         let mut isub = self.instance_subst(st, ff.impl_self)?;
         let mut inst_map: BTreeMap<String, Ty> = BTreeMap::new();
         if let Some(inst) = &inst {
-            let fn_gens = Self::generics_of(&ff.sig.generics);
+            let mut fn_gens = Self::generics_of(&ff.sig.generics);
+            if let Some(g) = ff.impl_generics {
+                fn_gens.extend(Self::generics_of(g));
+            }
             for part in inst.split(',') {
                 let (g, t) = part.split_once(':').ok_or_else(|| format!("{} `{}`: `inst={}` is not Param:Type[,..]", file, spec, inst))?;
                 if !fn_gens.contains(g) {
                     return Err(format!("{} `{}`: `{}` is not a type parameter of the function", file, spec, g));
                 }
                 let ty: Type = syn::parse_str(t).map_err(|e| format!("inst type `{}`: {}", t, e))?;
-                let ty = self.conv(&ty, &BTreeSet::new(), None, None)?;
+                // a configured type, or a type variable (`tyvar`): a renaming of the parameter
+                let tvs: BTreeSet<String> = self.tables.tyvars.keys().filter(|k| !k.contains("::")).cloned().collect();
+                let ty = self.conv(&ty, &tvs, None, None)?;
                 inst_map.insert(g.to_string(), ty.clone());
                 isub.insert(g.to_string(), ty);
             }
@@ -1064,8 +1093,23 @@ impl Driver {
                         }
                     }
                 }
+                // fields of `self` whose type is a generic parameter: `self.iter.next()`
+                let mut ftys: BTreeMap<String, String> = BTreeMap::new();
+                if let Some(stn) = st {
+                    if let Some(si) = self.tables.struct_info(stn) {
+                        for f in si.fields.iter() {
+                            if let Ty::Param(g) = &f.ty {
+                                if gens.contains(g) {
+                                    ftys.insert(f.name.clone(), g.clone());
+                                }
+                            }
+                        }
+                    }
+                }
                 struct M<'g> {
                     ptys: &'g BTreeMap<String, String>,
+                    ftys: &'g BTreeMap<String, String>,
+                    known: &'g BTreeMap<String, Ty>,
                     found: Vec<String>,
                 }
                 impl<'ast, 'g> syn::visit::Visit<'ast> for M<'g> {
@@ -1080,11 +1124,97 @@ impl Driver {
                                 }
                             }
                         }
+                        if let Expr::Field(f) = &*m.receiver {
+                            if let (Expr::Path(p), Member::Named(fname)) = (&*f.base, &f.member) {
+                                if p.path.is_ident("self") && self.known.contains_key(&m.method.to_string()) {
+                                    if let Some(g) = self.ftys.get(&fname.to_string()) {
+                                        let k = format!("{}::{}", g, m.method);
+                                        if !self.found.contains(&k) {
+                                            self.found.push(k);
+                                        }
+                                    }
+                                }
+                            }
+                        }
                         syn::visit::visit_expr_method_call(self, m);
                     }
                 }
-                let mut mv = M { ptys: &ptys, found: vec![] };
+                let mut mv = M { ptys: &ptys, ftys: &ftys, known: &self.tables.assoc_tys, found: vec![] };
                 syn::visit::Visit::visit_block(&mut mv, ff.block);
+                // (a) a method whose `assoc` type says its receiver is `G` / `G::X` for a generic G of this function
+                //     (receivers that are closure parameters or results, whose types are not visible syntactically);
+                // (b) a call of a configured method of ANOTHER impl that abstracts items of its own generic parameters
+                //     (`iter.nth(..)` on a RawDataIterator needs `R::load::<O>`): the caller abstracts them too, under the
+                //     same key, unless it has a generic parameter of that name itself
+                {
+                    struct A<'g> {
+                        gens: &'g BTreeSet<String>,
+                        known: &'g BTreeMap<String, Ty>,
+                        fns: &'g Vec<FnInfo>,
+                        st: Option<&'g str>,
+                        found: Vec<String>,
+                        clash: Option<String>,
+                    }
+                    impl<'g> A<'g> {
+                        fn name(&mut self, n: &str, with_a: bool) {
+                            if let (true, Some(Ty::Fn(ps, _))) = (with_a, self.known.get(n)) {
+                                if let Some(Ty::Param(g)) = ps.first() {
+                                    if self.gens.contains(g.split("::").next().unwrap()) {
+                                        let k = format!("{}::{}", g, n);
+                                        if !self.found.contains(&k) {
+                                            self.found.push(k);
+                                        }
+                                    }
+                                }
+                            }
+                        }
+                    }
+                    impl<'ast, 'g> syn::visit::Visit<'ast> for A<'g> {
+                        fn visit_expr_method_call(&mut self, m: &'ast ExprMethodCall) {
+                            self.name(&m.method.to_string(), true);
+                            syn::visit::visit_expr_method_call(self, m);
+                        }
+                        fn visit_expr_call(&mut self, c: &'ast ExprCall) {
+                            if let Expr::Path(p) = &*c.func {
+                                if p.path.segments.len() >= 2 {
+                                    let n = p.path.segments.last().unwrap().ident.to_string();
+                                    // only (b): `Type::function(..)`
+                                    self.name(&n, false);
+                                }
+                            }
+                            syn::visit::visit_expr_call(self, c);
+                        }
+                    }
+                    let mut av = A { gens: &gens, known: &self.tables.assoc_tys, fns: &self.tables.fns, st, found: vec![], clash: None };
+                    syn::visit::Visit::visit_block(&mut av, ff.block);
+                    if let Some(c) = av.clash {
+                        return Err(format!("{} `{}`: abstracted item {}", file, spec, c));
+                    }
+                    // `needs=<key>,..`: items abstracted by configured methods of OTHER impls that this function calls
+                    // (`iter.nth(..)` on a RawDataIterator needs `R::load::<O>`): parameters of this function under the same key
+                    if let Some(ns) = &needs {
+                        for k in ns.split(',') {
+                            let g0 = k.split("::").next().unwrap();
+                            if gens.contains(g0) {
+                                return Err(format!("{} `{}`: `needs={}` but `{}` is a generic parameter of this function itself", file, spec, k, g0));
+                            }
+                            let by_fn = self.tables.fns.iter().any(|f| f.assoc_params.iter().any(|(k2, _)| k2 == k));
+                            let last = k.split("::<").next().unwrap().rsplit("::").next().unwrap();
+                            let by_assoc = matches!(self.tables.assoc_tys.get(last), Some(Ty::Fn(ps, _)) if matches!(ps.first(), Some(Ty::Param(g)) if format!("{}::{}", g, last) == k));
+                            if !by_fn && !by_assoc {
+                                return Err(format!("{} `{}`: `needs={}`: no configured function abstracts such an item and no `assoc` line declares it", file, spec, k));
+                            }
+                            if !av.found.contains(&k.to_string()) {
+                                av.found.push(k.to_string());
+                            }
+                        }
+                    }
+                    for k in av.found {
+                        if !mv.found.contains(&k) {
+                            mv.found.push(k);
+                        }
+                    }
+                }
                 for k in mv.found {
                     if !v.found.contains(&k) {
                         v.found.push(k);
@@ -1277,7 +1407,7 @@ impl Driver {
         let info = FnInfo { key: spec.to_string(), name: name.clone(), coq, self_ty: self_ty.clone(), trait_name: trait_spec.clone(), self_kind, const_generics, assoc_params, params, mut_params, mvars, generic_names: ff.sig.generics.params.iter().filter_map(|p| if let GenericParam::Type(t) = p { Some(t.ident.to_string()) } else { None }).collect(), impl_args: impl_args.clone(), file: file.to_string(), ret, fuel: false };
         self.tables.fns.push(info);
         let idx = self.tables.fns.len() - 1;
-        self.jobs.push(FnJob { file: file.to_string(), self_ty, trait_spec, name, info_idx: idx, module, inst: inst_map });
+        self.jobs.push(FnJob { file: file.to_string(), self_ty, find_self_ty, trait_spec, name, info_idx: idx, module, inst: inst_map });
         self.modules[module].decls.push(Decl::Fn(self.jobs.len() - 1));
         Ok(())
     }
@@ -1356,13 +1486,14 @@ impl Driver {
     fn translate_fn_with(&self, job: &FnJob, fuel: bool) -> std::result::Result<String, (String, bool)> {
         let nf = |e: String| (e, false);
         let src = &self.sources[&job.file];
-        let ff = find_fn(src, job.self_ty.as_deref(), job.trait_spec.as_deref(), &job.name).map_err(nf)?;
+        let ff = find_fn(src, job.find_self_ty.as_deref(), job.trait_spec.as_deref(), &job.name).map_err(nf)?;
         let info = &self.tables.fns[job.info_idx];
         let mut gens = Self::generics_of(&ff.sig.generics);
         if let Some(g) = ff.impl_generics {
             gens.extend(Self::generics_of(g));
         }
-        let mut_methods: BTreeSet<String> = self.tables.fns.iter().filter(|f| f.self_kind == SelfKind::Mut).map(|f| f.name.clone()).collect();
+        let mut mut_methods: BTreeSet<String> = self.tables.fns.iter().filter(|f| f.self_kind == SelfKind::Mut).map(|f| f.name.clone()).collect();
+        mut_methods.extend(self.tables.assoc_mut.iter().cloned());
         let mut fuel_names: BTreeSet<String> = self.tables.fns.iter().filter(|f| f.fuel).map(|f| f.name.clone()).collect();
         for f in self.tables.fns.iter().filter(|f| f.fuel) {
             if let Some(st) = &f.self_ty {
@@ -1425,10 +1556,19 @@ impl Driver {
                             }
                         }
                     };
-                    for p in ff.sig.generics.params.iter() {
+                    for p in ff.sig.generics.params.iter().chain(ff.impl_generics.iter().flat_map(|g| g.params.iter())) {
                         if let GenericParam::Type(tp) = p {
                             if tp.ident == g {
                                 add(&tp.bounds);
+                            }
+                        }
+                    }
+                    for w in ff.impl_generics.iter().filter_map(|g| g.where_clause.as_ref()) {
+                        for pr in w.predicates.iter() {
+                            if let WherePredicate::Type(pt) = pr {
+                                if matches!(&pt.bounded_ty, Type::Path(tp) if tp.path.is_ident(g)) {
+                                    add(&pt.bounds);
+                                }
                             }
                         }
                     }
@@ -1692,8 +1832,8 @@ fn main() {
             continue;
         }
         let w: Vec<&str> = line.split_whitespace().collect();
-        let opts: BTreeMap<String, String> = w.iter().filter_map(|x| x.split_once('=').filter(|(a, _)| !a.is_empty() && *a != "").map(|(a, b)| (a.to_string(), b.to_string()))).filter(|(a, _)| a == "as" || a == "eqb" || a == "inst").collect();
-        let w: Vec<&str> = w.into_iter().filter(|x| !(x.starts_with("as=") || x.starts_with("eqb=") || x.starts_with("inst="))).collect();
+        let opts: BTreeMap<String, String> = w.iter().filter_map(|x| x.split_once('=').filter(|(a, _)| !a.is_empty() && *a != "").map(|(a, b)| (a.to_string(), b.to_string()))).filter(|(a, _)| a == "as" || a == "eqb" || a == "inst" || a == "needs").collect();
+        let w: Vec<&str> = w.into_iter().filter(|x| !(x.starts_with("as=") || x.starts_with("eqb=") || x.starts_with("inst=") || x.starts_with("needs="))).collect();
         let cur = d.modules.len().wrapping_sub(1);
         let res: R<()> = match w[0] {
             "module" if w.len() == 2 => {
@@ -1705,8 +1845,12 @@ fn main() {
                 d.modules[cur].imports.push(w[1].to_string());
                 Ok(())
             }
+            "tymap" if w.len() == 3 => {
+                d.tables.tymap.insert(w[1].to_string(), w[2].to_string());
+                Ok(())
+            }
             "tyvar" if w.len() == 3 => {
-                d.tables.tyvars.insert(w[1].to_string(), w[2].to_string());
+                d.tables.tyvars.insert(w[1].to_string(), w[2].replace('~', " "));
                 Ok(())
             }
             "struct" | "enum" if w.len() >= 3 => {
@@ -1733,10 +1877,27 @@ fn main() {
                 Ok(())
             }
             "assoc" if w.len() == 3 => {
-                let t: R<Type> = syn::parse_str(w[2]).map_err(|e| e.to_string());
-                let gens: BTreeSet<String> = d.tables.tyvars.keys().cloned().collect();
-                t.and_then(|t| d.conv(&t, &gens, None, None)).map(|t| {
+                // `fnmut(A, ..) -> R`: a `&mut self` method of a generic parameter: A -> .. -> (A * R)
+                let is_mut = w[2].starts_with("fnmut(");
+                let src = if is_mut { w[2].replacen("fnmut(", "fn(", 1) } else { w[2].to_string() };
+                let t: R<Type> = syn::parse_str(&src).map_err(|e| e.to_string());
+                let gens: BTreeSet<String> = d.tables.tyvars.keys().map(|k| k.split("::").next().unwrap().to_string()).collect();
+                t.and_then(|t| d.conv(&t, &gens, None, None)).and_then(|t| {
+                    let t = match (is_mut, t) {
+                        (true, Ty::Fn(a, r)) if !a.is_empty() => {
+                            let st = a[0].clone();
+                            Ty::Fn(a, Box::new(Ty::Tuple(vec![st, *r])))
+                        }
+                        (true, _) => return Err("`assoc .. fnmut(..)` needs the receiver type as first argument".to_string()),
+                        (false, t) => t,
+                    };
+                    if is_mut {
+                        d.tables.assoc_mut.insert(w[1].to_string());
+                    } else {
+                        d.tables.assoc_mut.remove(w[1]);
+                    }
                     d.tables.assoc_tys.insert(w[1].to_string(), t);
+                    Ok(())
                 })
             }
             // extern <RustType> = <coq type> <method>:<rust return type>:<coq function, `~` for blanks> ...
@@ -1786,7 +1947,7 @@ fn main() {
                     }
                 }
             }
-            "fn" if w.len() == 3 => d.add_fn(w[1], w[2], opts.get("as").cloned(), opts.get("inst").cloned(), cur),
+            "fn" if w.len() == 3 => d.add_fn(w[1], w[2], opts.get("as").cloned(), opts.get("inst").cloned(), opts.get("needs").cloned(), cur),
             // macro <file> <macro name> <arm> as <virtual file> [$name=tokens ...]
             "macro" if w.len() >= 6 && w[4] == "as" => match w[3].parse::<usize>() {
                 Ok(arm) => d.add_macro(w[1], w[2], arm, w[5], &w[6..]),
